@@ -87,21 +87,28 @@ func setupFor(sc scenario, base string) func() *schedmc.Exec {
 		holding := make([]bool, len(sc.rounds))
 		acquired := 0
 		var log []string
+		note := func(f string, a ...any) {
+			if !schedmc.FreeRunning { // free-running -race pass: no oracle bookkeeping
+				log = append(log, fmt.Sprintf(f, a...))
+			}
+		}
 		var bodies []func()
 		for i, n := range sc.rounds {
 			bodies = append(bodies, func() {
 				for r := 0; r < n; r++ {
 					l, err := utils.AcquireDirLock(dir, fs)
 					if err != nil {
-						log = append(log, fmt.Sprintf("%d:busy", i))
+						note("%d:busy", i)
 						continue
 					}
 					holding[i] = true
-					acquired++
-					log = append(log, fmt.Sprintf("%d:acq", i))
+					if !schedmc.FreeRunning {
+						acquired++
+					}
+					note("%d:acq", i)
 					vsched.Named("holding")
 					holding[i] = false // from the call of Release on, the contender no longer claims the directory
-					log = append(log, fmt.Sprintf("%d:rel", i))
+					note("%d:rel", i)
 					_ = l.Release()
 				}
 			})
@@ -129,6 +136,15 @@ func setupFor(sc scenario, base string) func() *schedmc.Exec {
 }
 
 func main() {
+	if os.Getenv("VERIF_PROP") == "C33-race" {
+		// supporting pass: the same thread bodies, free-running under the race detector
+		r := vr.Start("C33-race")
+		var scs []schedmc.Scenario
+		for _, sc := range scenarios(true) {
+			scs = append(scs, schedmc.Scenario{Name: sc.name, Setup: setupFor(sc, r.Scratch())})
+		}
+		schedmc.FreeRunMain(r, scs, r.Pick(100, 1000))
+	}
 	r := vr.Start("C33")
 	if r.ReplayPath != "" {
 		var rp struct {
